@@ -54,7 +54,9 @@ def seeded_table():
             m.get('change_and_what_it_needs', ''),
             m.get('demo_with_change', {}).get('rc'),
             m.get('demo_without_change', {}).get('rc'),
-            ' '.join(caught) if caught else '**missed**', bucket))
+            ' '.join(caught) if caught else (
+                'n/a (neutralised by %s)' % m['neutralised_by']
+                if m.get('neutralised_by') else '**missed**'), bucket))
     return '\n'.join(lines)
 
 
